@@ -205,17 +205,9 @@ class Fuzz:
             if verdict is not None and c03fuzz.in_sds_pipe_class(ops, data, verdict):
                 self.sds_hits.append((name, k, kind, route, data, ops, verdict))
                 verdict = None
-            if verdict is not None and c03fuzz.in_svx_backjump_class(ops, data, verdict):
-                self.extra_hits.setdefault("KF-C03-svx-backjump", []).append((name, k, kind, route, data, ops, verdict))
-                verdict = None
-            if verdict is not None and c03fuzz.in_caf_info_pipe_class(ops, data, verdict):
-                self.extra_hits.setdefault("KF-C03-caf-info-pipe", []).append((name, k, kind, route, data, ops, verdict))
-                verdict = None
+            # (round 4) KF-C03-svx-backjump, KF-C03-caf-info-pipe and KF-C03-pipe-chunk-loop are repaired: no class is waived for them
             if verdict is not None and c03fuzz.in_nist_coding_class(ops, data, verdict):
                 self.nist_hits.append((name, k, kind, route, data, ops, verdict))
-                verdict = None
-            if verdict is not None and c03fuzz.in_svx_pipe_class(ops, data, verdict):
-                self.svx_hits.append((name, k, kind, route, data, ops, verdict))
                 verdict = None
             if len(lines) > 1 and lines[1].startswith("open=ok"):
                 self.stats["open_ok"] += 1
@@ -378,7 +370,7 @@ def regression_scripts(ctx, known):
     return bad
 
 
-PIPE_KF = ("KF-C03-sds-pipe-scan", "KF-C03-pipe-chunk-loop", "KF-C03-svx-backjump")
+PIPE_KF = ("KF-C03-sds-pipe-scan",)
 
 
 def replay_known(ctx):
@@ -391,10 +383,7 @@ def replay_known(ctx):
         text = open(path).read()
         script = text.split("--- script", 1)[1].lstrip("\n")
         lines, rc, err = ("", 0, "") if e["id"] in PIPE_KF else ctx.script(script)
-        if e["id"] == "KF-C03-caf-info-pipe":
-            lines, rc, err = ctx.script(script)
-            active = rc != 0 and "negative-size-param" in err and "caf_read_strings" in err
-        elif e["id"] == "KF-C03-nist-sample-coding":
+        if e["id"] == "KF-C03-nist-sample-coding":
             lines, rc, err = ctx.script(script)
             active = rc != 0 and "stack-buffer-overflow" in err and "nist_read_header" in err
         elif e["id"] in PIPE_KF:
@@ -479,15 +468,6 @@ def run(ctx):
     ctx.notes["fuzz_known_finding_hits_sds_pipe"] = len(fz.sds_hits)
     if fz.sds_hits and not kf_active.get("KF-C03-sds-pipe-scan"):
         fz.failures = fz.sds_hits[:2] + fz.failures
-    for kid, hits in fz.extra_hits.items():
-        ctx.notes["fuzz_known_finding_hits_" + kid] = len(hits)
-        if not kf_active.get(kid):
-            fz.failures = hits[:2] + fz.failures
-        elif kid == "KF-C03-caf-info-pipe":
-            for f in hits[:3]:
-                lines, rc, err = ctx.script(script_text(f[4], f[5][1:]))
-                if not ("negative-size-param" in err and "caf_read_strings" in err):
-                    fz.failures.insert(0, f)
     ctx.notes["fuzz_known_finding_hits_nist_coding"] = len(fz.nist_hits)
     if fz.nist_hits:
         if not kf_active.get("KF-C03-nist-sample-coding"):
@@ -497,9 +477,6 @@ def run(ctx):
                 lines, rc, err = ctx.script(script_text(f[4], f[5][1:]))
                 if rc != 0 and not ("nist_read_header" in err and ("stack-buffer-overflow" in err or "stack-buffer-underflow" in err)):
                     fz.failures.insert(0, f)
-    ctx.notes["fuzz_known_finding_hits_svx_pipe"] = len(fz.svx_hits)
-    if fz.svx_hits and not kf_active.get("KF-C03-pipe-chunk-loop"):
-        fz.failures = fz.svx_hits[:2] + fz.failures
     seen = set()
     for f in fz.failures:
         key = (fz.seeds[f[1]][0] & 0x0FFF0000, f[6][1].split(" ")[0])
